@@ -485,3 +485,13 @@ package lang
 //@ func (*Process).HasCancelled [C15] trusted
 //@   modifies nothing
 //@   ensures result == $hasCancelled(p)
+
+// Variables.set: a successful set of an ordinary (non-reserved) name always ends with the name defined in
+// THIS table with the data type given - whatever other tables (global, environment) already hold.
+//@ func (*Variables).set [C11]
+//@   check none
+//@   requires v != nil && v.vars != nil
+//@   at call convertDataType#* modifies nothing
+//@   at call (lang.MxInterface).New#* modifies nothing
+//@   ensures imp(result == nil && called("convertDataType"), has(v.vars, name))
+//@   ensures imp(result == nil && called("convertDataType"), v.vars[name].DataType == dataType)
